@@ -241,9 +241,9 @@ Section XF.
       - cbn [seg_scale]. now rewrite (scale_bezier_eq sx sy origin p Hw).
       - cbn [seg_point]. now rewrite (bez_point_affine (scale_affine sx sy origin)).
     Qed.
-    Theorem seg_transform_bez eig (M : Mat3 K) p t : wf_bez p ->
+    Theorem seg_transform_bez tfx eig (M : Mat3 K) p t : wf_bez p ->
       mat_is_identity N M = false ->
-      exists s', seg_transform N T eig M (SBez p) = XOk s' /\
+      exists s', seg_transform N T tfx eig M (SBez p) = XOk s' /\
                  seg_point N T s' t = tf_point N M (seg_point N T (SBez p) t).
     Proof.
       intros Hw Hid. exists (SBez (map (tf_point N M) p)). split.
